@@ -223,7 +223,9 @@ fn s_ndp_items(area: &[u8]) -> String {
     let mut out = String::new();
     let mut steps = 0usize;
     loop {
-        if steps > 100000 {
+        // an iterator over n bytes that has not ended after n + 2 calls of next() does not
+        // make progress (every item covers at least one byte; an error ends the iteration)
+        if steps > area.len() + 2 {
             out.push_str("LOOP");
             break;
         }
